@@ -5,3 +5,4 @@ import QhttpGen.Copier
 import QhttpGen.Sock
 import QhttpGen.Parser
 import QhttpGen.Proxy
+import QhttpGen.Fs
